@@ -120,6 +120,17 @@ CHECKS = {
    note="Trusted: Coq kernel; extraction; glue; sanitizer runtime. Signed-overflow/float-cast UBSan checks disabled (outside the documented range, not a crash). "
         "Class-related crash surfaces are exercised by the C08/C11 generators on the same build when those checks run.",
    technique="Coq proof (integer-range lemmas over Z) + sanitizer-instrumented differential execution and CLI shape check"),
+ "C13": dict(
+   level=("proof", "Coq theorems (axiom-free) on the front-end models: the lexer terminates on every string with a token list or one positioned error; every "
+          "successful step of the expression parser (assignment, Pratt, prefix, primary, argument/element lists) consumes at least one token and the "
+          "binary/postfix loop never gives tokens back, so no parser loop can spin; the import traversal terminates on every import graph. Statement, "
+          "declaration and class grammar and the semantic analyser are not modelled: for them, and for crashes / out-of-bounds reads / analyser reuse, the "
+          "property is observed by mutation on an ASan+UBSan build - single-token deletion, insertion, replacement, swap and truncation of generated "
+          "class, classical and quantum programs, random bytes, deep nesting, inheritance chains and cycles - each outcome must be acceptance or exactly one "
+          "categorised diagnostic within the time limit, rejected programs are followed by a valid one on the same analyser instance, and accept/reject "
+          "of mutated expression token lists is compared with the extracted parser model (partial).", "DESIGN.md §6 C13"),
+   note="Trusted: Coq kernel; extraction; glue; sanitizer runtime. Bounded input length and nesting (<= 200) as the property states.",
+   technique="Coq proof (fuel-free termination / progress of lexer, expression parser, loader models) + mutation testing on a sanitizer build + model/implementation accept-reject comparison"),
  "C14": dict(
    level=("proof", "Coq theorems (axiom-free) on a model of the expression parser (assignment level, Pratt loop with the binding-power table, "
           "prefix, primary, casts, argument and array-literal lists): for every well-parenthesised tree over all expression forms, parsing its "
